@@ -45,7 +45,16 @@ func (k msgServer) ClaimReward(goCtx context.Context, msg *types.MsgClaimReward)
 		return nil, err
 	}
 
+	workerRewardBeforeRepay := workerReward
 	k.RepayPledgeDebt(ctx, msg.Creator, []*sdk.Coin{&claimReward, &workerReward})
+	if workerReward.IsLT(workerRewardBeforeRepay) {
+		// storage income used to repay collateral debt becomes collateral: move it to the node escrow
+		repaid := workerRewardBeforeRepay.Sub(workerReward)
+		err = k.bank.SendCoinsFromModuleToModule(ctx, markettypes.ModuleName, types.ModuleName, sdk.Coins{repaid})
+		if err != nil {
+			return nil, err
+		}
+	}
 
 	if !claimReward.IsZero() {
 		logger.Debug("CoinTrace: block reward", "from", types.ModuleName, "to", msg.GetSigners()[0], "amount", claimReward.String())
